@@ -148,10 +148,13 @@ theorem wif_roundtrip (H : Bytes → Bytes) (hH : ∀ x, 4 ≤ (H x).length) (ne
     unfold wifEncode Base58.encode
     have := Base58.b58encode_len (wifPayload (ofNats net.wif) (beBytes nSize q) c ++
       (H (wifPayload (ofNats net.wif) (beBytes nSize q) c)).take Gen.Base58.CHECKSUM_LEN)
-    simp only [List.length_append, List.length_take, hc] at this
+    simp only [hc] at this ⊢
+    simp only [List.length_append, List.length_take] at this
     omega
+  have hstrip : strip (wifEncode H net nSize q c) = wifEncode H net nSize q c :=
+    strip_id _ (fun ch hch => alphabet_not_space ch (Base58.b58encode_chars _ ch hch))
   unfold wifDecode
-  rw [strip_id _ (fun ch hch => alphabet_not_space ch (Base58.b58encode_chars _ ch hch))]
+  rw [hstrip]
   unfold wifEncode at hcap ⊢
   rw [Base58.decode_encode H hH _ hcap]
   simp only
@@ -176,8 +179,10 @@ theorem xkey_roundtrip (H : Bytes → Bytes) (hH : ∀ x, (H x).length = 32) (k 
       simp [hl, hH, hc]
     rw [this]; exact Base58.xkey_text_bound
   refine ⟨?_, hcap⟩
+  have hstrip : strip (xkeyEncode H k) = xkeyEncode H k :=
+    strip_id _ (fun ch hch => alphabet_not_space ch (Base58.b58encode_chars _ ch hch))
   unfold xkeyDecode
-  rw [strip_id _ (fun ch hch => alphabet_not_space ch (Base58.b58encode_chars _ ch hch))]
+  rw [hstrip]
   unfold xkeyEncode at hcap ⊢
   have h1 := Base58.decode_some H _ _ (Base58.decode_encode H (fun x => by rw [hH]; omega) _ hcap)
   rw [hl] at h1
